@@ -132,13 +132,19 @@ CLAIMED = {
     "C03": dict(
         text="Theorems over the model of every public LineBuffer method (same byte arithmetic, explicit Panic): for EVERY "
              "operation, Unicode data, segmentation, buffer and parameters the notifications replayed on the old text give "
-             "the new text, and motions/copies change nothing and notify nothing; for the character- and line-level "
-             "operations, totality (no panic) and cursor-on-boundary for every buffer/cursor/count given only that the "
-             "segmentation partitions the text (proved for the model segmentation); insert/yank refuse or stay within a "
-             "fixed capacity. PARTIAL: totality/cursor validity of word motions, char search, transpose, edit_word, indent "
-             "and update's boundary cut rest on the oracle over the linebuf stream (no panic, cursor on boundary).",
+             "the new text, and motions/copies change nothing and notify nothing; TOTALITY AND CURSOR VALIDITY OF EVERY "
+             "OPERATION (C03_all_total_wf): character, word (every count / word definition / At), character-search, line and "
+             "buffer motions and kills, transpose_chars / transpose_words, edit_word, copy and kill of every Movement, "
+             "indent / dedent, line-up / line-down with any width function, update's boundary cut -- from any buffer whose "
+             "cursor is on a character boundary the operation returns (the model's Panic -- slice off a boundary, underflow, "
+             "unwrap of None -- is unreachable) and the cursor is on a boundary again; hence no step of any operation "
+             "sequence panics (C03_run_never_panics). Hypotheses: the segmentation partitions the text into non-empty "
+             "clusters (proved for the model's UAX #29 segmentation: C03_all_total_wf_useg has no hypothesis); the six "
+             "raw-offset operations carry the crate's stated precondition (offsets on boundaries, ordered). insert/yank "
+             "refuse or stay within a fixed capacity. The tie to the code is the linebuf stream (every operation, "
+             "small-exhaustive + random).",
         note=COMMON_NOTE + "Preconditions: cursor on a character boundary; raw primitives get in-text boundary ranges.",
-        technique="Coq proof: compositional replay/purity over a state monad whose only mutators are 4 primitives; direct proofs of totality + invariant per operation; extracted-model differential check (small-exhaustive + random)"),
+        technique="Coq proof: compositional replay/purity over a state monad whose only mutators are 4 primitives; boundary algebra + a small Hoare logic over the buffer monad for totality and the cursor invariant of every operation (induction over word / line / indent loops); extracted-model differential check (small-exhaustive + random)"),
     "C04": dict(
         text="Theorems: forward motion/delete by n from a boundary covers exactly the first min(n,remaining) clusters (and "
              "the single notification names them); motion targets are character boundaries on the right side of the "
